@@ -132,6 +132,8 @@ def hash_semantic(chk, program):
                 args.append(flag)
             elif p_ in binding:
                 args.append(binding[p_])
+            elif p_ in _defaulted(fn):
+                args.append(_defaulted(fn)[p_])     # a further, optional parameter: add_data as it behaves when the caller leaves it out (the call site: hash_through_decoder)
             else:
                 args.append(A.AOpaque(p_))
         from .wire import is_logger
@@ -180,22 +182,42 @@ def hash_semantic(chk, program):
               found=descr(), detail='' if shape_ok and sep_ok else 'a non-key field, the source, an ambiguous concatenation or a missing key field changes which messages share a hash')
     return True
 
-def hash_history(chk, program):
-    """[HASH-HIST] the hash as a function of (definition id, raw values of the key fields) over a history: add_data interpreted (absint) on one
-    module state -- whatever the module keeps between calls stays -- for five concrete messages in a row:
-      A  id idA, PGN 130000, key 5, non-key 6, key 7      B  id idB, same PGN, same values      C  idA with the non-key field changed
-      D  idA with a key field changed                     E  A again
-    Required: hash(B) != hash(A), hash(C) == hash(A), hash(D) != hash(A), hash(E) == hash(A), every hash a hashlib digest.  Two digests are equal
-    exactly when algorithm and digested text are.  -> True when the history was interpretable."""
+def _defaulted(fn):
+    """parameters of add_data beyond the ones the rules bind, with a constant default: name -> abstract value of the default"""
     from . import absint as A
-    from .wire import is_logger
-    fn = program.fn('message', 'NMEA2000Message.add_data')
-    cls = program.cls('message', 'NMEA2000Message')
-    methods = {n.name: n for n in cls.body if isinstance(n, ast.FunctionDef)}
-    funcs = {q: f for q, f in program.mod('message').defs.items() if '.' not in q}
-    params = [a.arg for a in fn.args.args]
+    known = ('self', 'src', 'dest', 'priority', 'timestamp', 'source_iso_name', 'raw_can_data')
+    a = fn.args
+    out = {}
+    pos = a.args
+    for p_, d_ in list(zip(pos[len(pos) - len(a.defaults):], a.defaults)) + [(p_, d_) for p_, d_ in zip(a.kwonlyargs, a.kw_defaults) if d_ is not None]:
+        if p_.arg in known or 'network' in p_.arg or 'map' in p_.arg or not isinstance(d_, ast.Constant):
+            continue
+        v = d_.value
+        if v is None or isinstance(v, bool):
+            out[p_.arg] = v
+        elif isinstance(v, int):
+            out[p_.arg] = A.AInt(v)
+        elif isinstance(v, str):
+            out[p_.arg] = A.AStr([('lit', v)])
+    return out
+
+class _HashInterp:
+    """add_data under the abstract interpreter with hashlib modelled: a digest is the text '<hexdigest ALGO of TEXT>', so two digests are equal
+    exactly when algorithm and digested text are.  One instance = one module state (whatever the module keeps between calls stays)."""
     ALGOS = ('md5', 'sha1', 'sha224', 'sha256', 'sha384', 'sha512', 'blake2b', 'blake2s', 'sha3_256', 'sha3_512')
-    def text_of(a, it):
+    def __init__(self, program):
+        from . import absint as A
+        from .wire import is_logger
+        self.A = A
+        self.fn = program.fn('message', 'NMEA2000Message.add_data')
+        cls = program.cls('message', 'NMEA2000Message')
+        methods = {n.name: n for n in cls.body if isinstance(n, ast.FunctionDef)}
+        funcs = {q: f for q, f in program.mod('message').defs.items() if '.' not in q}
+        self.params = [a.arg for a in self.fn.args.args] + [a.arg for a in self.fn.args.kwonlyargs]
+        self.it = A.Interp(hook=self.hook, skip=is_logger, methods=methods, functions=funcs, module=A.ModuleEnv(program.mod('message').tree))
+
+    def text_of(self, a):
+        A = self.A
         if isinstance(a, A.AStr):
             out = ''
             for p_ in a.pieces:
@@ -209,7 +231,9 @@ def hash_history(chk, program):
         if isinstance(a, A.ABytes) and all(x[0] == 'c' for x in a.items):
             return bytes(x[1] for x in a.items).decode('latin-1')
         raise A.Unknown(f"digested value not followed: {a!r}"[:80])
-    def hook(it, call, env):
+
+    def hook(self, it, call, env):
+        A = self.A; ALGOS = self.ALGOS; text_of = self.text_of
         f = call.func
         if isinstance(f, ast.Name) and f.id == 'hash' and 'hash' not in env:
             raise A.Unknown('builtin hash()')
@@ -224,7 +248,7 @@ def hash_history(chk, program):
                 raise A.Unknown('hashlib.new(<abstract>)')
             algo, args = args[0].literal(), args[1:]
         if algo is not None:
-            return A.AObj(hasher=algo, text=''.join(text_of(a, it) for a in args))
+            return A.AObj(hasher=algo, text=''.join(text_of(a) for a in args))
         if isinstance(f, ast.Attribute) and f.attr in ('update', 'hexdigest', 'digest', 'copy', 'hex'):
             try:
                 o = it.expr(f.value, env)
@@ -232,38 +256,62 @@ def hash_history(chk, program):
                 return NotImplemented
             if isinstance(o, A.AObj) and 'hasher' in o.attrs:
                 if f.attr == 'update':
-                    o.attrs['text'] += ''.join(text_of(it.expr(a, env), it) for a in call.args)
+                    o.attrs['text'] += ''.join(text_of(it.expr(a, env)) for a in call.args)
                     return None
                 if f.attr == 'copy':
                     return A.AObj(hasher=o.attrs['hasher'], text=o.attrs['text'])
                 if f.attr in ('hexdigest', 'digest'):
                     return A.AStr([('lit', f"<{f.attr} {o.attrs['hasher']} of {o.attrs['text']!r}>")])
         return NotImplemented
-    def fld(i, pk, raw):
-        return A.AObj(id=A.AStr([('lit', f"f{i}")]), raw_value=A.AInt(raw), value=A.AInt(raw * 10), part_of_primary_key=pk, name=A.AStr([('lit', f"F{i}")]), unit_of_measurement=None,
-                      physical_quantities=None, type=A.AOpaque('type'), description=None)
+
+    def hash_of(self, msg, bound=None, tag='?'):
+        """add_data on `msg`; `bound`: parameter name -> abstract value as a call site binds them (left out: mapping on, source 7, the default of
+        an optional parameter, opaque otherwise) -> the digest as text"""
+        A = self.A
+        bound = bound or {}
+        dflt = _defaulted(self.fn)
+        args = [msg]
+        for p_ in self.params[1:]:
+            if p_ in bound:
+                args.append(bound[p_])
+            elif 'network' in p_ or 'map' in p_:
+                args.append(True)
+            elif p_ in ('src', 'dest', 'priority'):
+                args.append(A.AInt({'src': 7, 'dest': 255, 'priority': 3}[p_]))
+            elif p_ == 'source_iso_name':
+                args.append(None)
+            elif p_ in dflt:
+                args.append(dflt[p_])
+            else:
+                args.append(A.AOpaque(p_))
+        npos = len(self.fn.args.args)
+        self.it.call_function(self.fn, args[:npos], dict(zip(self.params[npos:], args[npos:])) or None)
+        h = msg.attrs.get('hash')
+        if not (isinstance(h, A.AStr) and h.literal() is not None):
+            raise A.Unknown(f"hash of message {tag} not followed: {h!r}"[:100])
+        return h.literal()
+
+def _hfld(A, i, pk, raw):
+    return A.AObj(id=A.AStr([('lit', f"f{i}")]), raw_value=A.AInt(raw), value=A.AInt(raw * 10), part_of_primary_key=pk, name=A.AStr([('lit', f"F{i}")]), unit_of_measurement=None,
+                  physical_quantities=None, type=A.AOpaque('type'), description=None)
+
+def hash_history(chk, program):
+    """[HASH-HIST] the hash as a function of (definition id, raw values of the key fields) over a history: add_data interpreted (absint) on one
+    module state -- whatever the module keeps between calls stays -- for five concrete messages in a row:
+      A  id idA, PGN 130000, key 5, non-key 6, key 7      B  id idB, same PGN, same values      C  idA with the non-key field changed
+      D  idA with a key field changed                     E  A again
+    Required: hash(B) != hash(A), hash(C) == hash(A), hash(D) != hash(A), hash(E) == hash(A), every hash a hashlib digest.  Two digests are equal
+    exactly when algorithm and digested text are.  -> True when the history was interpretable."""
+    from . import absint as A
+    fn = program.fn('message', 'NMEA2000Message.add_data')
     try:
-        it = A.Interp(hook=hook, skip=is_logger, methods=methods, functions=funcs, module=A.ModuleEnv(program.mod('message').tree))
+        hi = _HashInterp(program)
         out = {}
         for tag, mid, vals in (('A', 'idA', (5, 6, 7)), ('B', 'idB', (5, 6, 7)), ('C', 'idA', (5, 99, 7)), ('D', 'idA', (5, 6, 8)), ('E', 'idA', (5, 6, 7)),
                                ('F', 'idA', (0, 6, 7)), ('G', 'idA', (7, 6, 0)), ('H', 'idA', (0, 6, 0))):
-            msg = A.AObj(id=A.AStr([('lit', mid)]), PGN=A.AInt(130000), fields=A.AList([fld(1, True, vals[0]), fld(2, False, vals[1]), fld(3, True, vals[2])]), hash=None,
+            msg = A.AObj(id=A.AStr([('lit', mid)]), PGN=A.AInt(130000), fields=A.AList([_hfld(A, 1, True, vals[0]), _hfld(A, 2, False, vals[1]), _hfld(A, 3, True, vals[2])]), hash=None,
                          description=A.AStr([('lit', 'descr')]), ttl=None)
-            args = [msg]
-            for p_ in params[1:]:
-                if 'network' in p_ or 'map' in p_:
-                    args.append(True)
-                elif p_ in ('src', 'dest', 'priority'):
-                    args.append(A.AInt({'src': 7, 'dest': 255, 'priority': 3}[p_]))
-                elif p_ == 'source_iso_name':
-                    args.append(None)
-                else:
-                    args.append(A.AOpaque(p_))
-            it.call_function(fn, args)
-            h = msg.attrs.get('hash')
-            if not (isinstance(h, A.AStr) and h.literal() is not None):
-                raise A.Unknown(f"hash of message {tag} not followed: {h!r}"[:100])
-            out[tag] = h.literal()
+            out[tag] = hi.hash_of(msg, tag=tag)
     except (A.Unknown, A.RaiseSignal, KeyError, TypeError, AttributeError) as u:
         chk.unit('hash_history_not_interpretable', f"{type(u).__name__}: {u}"[:160])
         return False
